@@ -390,12 +390,14 @@ def gridFlatten : Nat → List PyVal → Outcome (List PyVal)
     match asSeq? r with
     | Option.none => .raised .typeError
     | some l => (gridFlatten h rows).bind fun t => .ok (l ++ t)
-/-- `Grid.serialize` (with patch D6 the explicit dimensions are used whenever given).  Note the inner call
-`seq_combinator.serialize(env, [d_flat], idx)` re-uses the caller's `idx`. -/
+/-- `Grid.serialize` (with patch D6 the explicit dimensions are used whenever given).  The flattened rows are
+wrapped in a fresh one-element list and the inner `Seq` is asked for its item 0:
+`seq_combinator.serialize(env, [d_flat], 0)`, whatever the caller's `idx` is (so a `Grid` at position `≥ 1` of a
+`Seq`/`Grid`/`ValuedRooms` serializes like one at position 0). -/
 def gridSer (f : SerF) (h w : Nat) : SerF := fun d i =>
   withItem d i fun v =>
     match v with
-    | .list rows => (gridFlatten h rows).bind fun flat => seqSer f (h * w) [.list flat] i
+    | .list rows => (gridFlatten h rows).bind fun flat => seqSer f (h * w) [.list flat] 0
     | _ => .none
 
 def gridRows (w : Nat) (d2 : List PyVal) : Nat → Nat → List PyVal
